@@ -1,4 +1,4 @@
-CONSTANTS Workers = {1,2} Ops = {"errorf","context","cleanup","failed"} Variant = "fail_nolock" Late = FALSE
+CONSTANTS Workers = {1,2} Ops = {"errorf","context","cleanup","failed"} Variant = "fail_nolock" Late = FALSE MainCtx = TRUE Recheck = TRUE
 SPECIFICATION Spec
 INVARIANTS NoRace NoLostFailure OneContext AllCancelled CleanupOnce
 CHECK_DEADLOCK FALSE
